@@ -31,6 +31,7 @@ TECHNIQUE += '; the semantics object stored on a cached model is part of the cac
 LEVEL_TEXT += ' Added clause: the actions that run are those of the object supplied to this compile().'
 TECHNIQUE += '; foreign exceptions pass the negative lookahead (= C01.R7b)'
 TECHNIQUE += '; store-what-you-raise decided by interpreting rule_call with scripted failing body / action (exception objects with identity); decorator consumption by interpreting Rule.__post_init__; calls keep their rule (R11 = C01.R13)'
+TECHNIQUE += '; the bind-cache key tells equal-but-distinct arguments apart (R12, BoundCallable._arg_key interpreted on 1 / True / 1.0, equal lists and dicts)'
 LEVEL_NOTE = ('Trusted: call-graph resolution (unresolved value calls are assumed to reach actions); exception hierarchy '
               'read from tatsu/exceptions.py.')
 EXPLANATION = ('Static analysis of /repo sources, TatSu not imported. rule_call/semantics_call are executed abstractly with '
@@ -644,4 +645,43 @@ def r11_calls_keep_their_rule(a, tier):
     return rep
 
 
-RULES = [r1_action_on_success, r2_lookup_order, r3_failure_conversion, r4_transparency, r5_decorators, r6_per_parse_state, r7_nomemo_gate, r8_action_contract, r9_semantics_not_shared, r10_foreign_exceptions_pass_lookahead, r11_calls_keep_their_rule]
+def r12_bind_cache_key(a, tier):
+    from ..minieval import Unsupported as _Uns
+    from ..modelinterp import Hook as _Hook, ModelInterp as _MI
+    rep = RuleReport(
+        'C06.R12',
+        'the action is called with THIS invocation\'s arguments: the key of the process-wide bind cache (BoundCallable._arg_key, interpreted) '
+        'tells apart argument tuples that differ in any argument\'s identity - in particular values that compare and hash equal but are different '
+        'values to an action (1 / True / 1.0, 0 / False / 0.0, an AST and an equal AST) - for positional, keyword and known arguments alike; '
+        'a key that goes by value hands a later call the arguments bound for an earlier one',
+        floor=10,
+    )
+    fn = a.p.functions.get('tatsu.util.typetools.BoundCallable._arg_key')
+    if fn is None:
+        raise AnalysisError('C06.R12: BoundCallable._arg_key not found')
+    fun = object()
+    l1, l2 = ['x'], ['x']
+    d1, d2 = {'k': 1}, {'k': 1}
+    pairs = [(1, True), (1, 1.0), (True, 1.0), (0, False), (0, 0.0), (l1, l2), (d1, d2), ((1,), (True,)), ('1', 1)]
+
+    def key(known, args, kwargs):
+        it = _MI(a, {'id': _Hook(id)})
+        try:
+            return it.call_function(fn.node, [fun, known, args, kwargs]) if not fn.params or fn.params[0] != 'cls' else it.call_function(fn.node, [None, fun, known, args, kwargs])
+        except _Uns as e:
+            raise AnalysisError(f'C06.R12: cannot interpret BoundCallable._arg_key: {e}') from e
+    for x, y in pairs:
+        for where, mk in (('positional', lambda v: ({}, (v,), {})), ('keyword', lambda v: ({}, (), {'p': v})), ('known', lambda v: ({'ast': v}, (), {}))):
+            kx, ky = key(*mk(x)), key(*mk(y))
+            same_obj = key(*mk(x)) == kx
+            ok = kx != ky and same_obj
+            rep.add({'arguments': [repr(x), repr(y)], 'passed_as': where, 'keys_differ': kx != ky, 'same_arguments_same_key': same_obj, 'ok': ok})
+            if kx == ky:
+                rep.fail(fn.qualname, f'bind-key-collision:{where}:{x!r}:{y!r}', f'the bind-cache keys of a call with the {where} argument {x!r} and of a call with {y!r} are equal: the second '
+                         f'call gets the arguments bound for the first (an action declared with the parameter True receives 1)', fn.loc)
+            elif not same_obj:
+                rep.fail(fn.qualname, f'bind-key-unstable:{where}:{x!r}', f'two computations of the key for the same {where} argument {x!r} differ', fn.loc)
+    return rep
+
+
+RULES = [r1_action_on_success, r2_lookup_order, r3_failure_conversion, r4_transparency, r5_decorators, r6_per_parse_state, r7_nomemo_gate, r8_action_contract, r9_semantics_not_shared, r10_foreign_exceptions_pass_lookahead, r11_calls_keep_their_rule, r12_bind_cache_key]
